@@ -209,6 +209,17 @@ def _pair_classes(item):
         # further fields overridden with the identical type, before and after `f` in declaration order
         pf = {"a0": Int, f: G.hint(tp, e), "z9": Int}
         cf = {"a0": Int, f: G.hint(tc, e), "z9": Int}
+    elif variant == "mm":
+        # parent declares Optional[TP]; an intermediate class makes it mandatory; the child re-declares TC
+        import typing
+
+        pf = {f: typing.Optional[G.hint(tp, e)]}
+        cf = {f: G.hint(tc, e)}
+    elif variant == "nest":
+        # the overridden field holds a nested schema; the child's nested class (a subclass) widens an inner field
+        S1 = G.make_class(e, {"g": G.hint(tp, e)}, prefix="BN")
+        pf = {f: S1}
+        cf = None  # built per child (the declaration belongs to the nested subclass)
     elif variant == "decl":
         # another field (sorting before `f`) is overridden WITH an explicit declaration; `f` is not declared
         pf = {"A0": Int, f: G.hint(tp, e)}
@@ -218,10 +229,21 @@ def _pair_classes(item):
         cf = {f: G.hint(tc, e)}
     P = G.make_class(e, pf, prefix="BP")
 
+    if variant == "mm":
+        from metador_core.schema.decorators import make_mandatory
+
+        P0 = P
+        P = make_mandatory(f)(G.make_class(e, {}, base=P0, prefix="BMM"))  # the class whose instances the child must stay within
+
     def child(with_override=False):
         base = P
         if variant == "via":
             base = G.make_class(e, {}, base=P, prefix="BM")
+        if variant == "nest":
+            S2 = G.make_class(e, {"g": G.hint(tc, e)}, base=S1, prefix="BN")
+            if with_override:
+                S2 = G.override("g")(S2)
+            return G.make_class(e, {f: S2}, base=base, prefix="BC")
         C = G.make_class(e, cf, base=base, prefix="BC")
         if variant == "decl":
             C = G.override("A0", f)(C) if with_override else G.override("A0")(C)
@@ -245,7 +267,11 @@ def _pair_inputs(item, tp, tc):
             a.update({"a0": 0, "z9": 0})
         if item.get("variant") == "decl":
             a.update({"A0": 0})
+        if item.get("variant") == "nest":
+            a = {f: {"g": v}}
         yield a
+    if item.get("variant") == "mm":
+        yield {}  # the field left out
 
 
 def _witness(P, C, assign):
@@ -291,6 +317,16 @@ def run_pair(item):
     sig_extra = {} if item.get("variant", "single") == "single" else {"variant": item["variant"]}
     if not accepted:
         res["outcome"] = "refused"
+        # a refusal must be stable: checking the same class again (e.g. a second attempt to load the plugin) must refuse again
+        if check_ok(C):
+            res["viol"].append(
+                {
+                    "sig": dict({"part": "refused-only-once"}, **sig_extra),
+                    "input": {"kind": "pair", "item": item, "assign": None, "seed": e.n.seed},
+                    "what": f"class C(P): f: {item['tc']} below P: f: {item['tp']} is refused by the plugin check the first time and ACCEPTED when checked again",
+                }
+            )
+            return res
         # with the explicit declaration the check has to pass (if TC on its own is a permitted field type)
         try:
             Q = G.make_class(e, {e.n.f: G.hint(tc, e)}, prefix="BQ")
@@ -449,8 +485,9 @@ def run(tier, seed):
         types, atoms = pair_types(tier)
         items = [{"tp": a, "tc": b, "variant": "single"} for a in types for b in types]
         sub = atoms if q else G.enumerate_types(2, atoms=atoms, union_atoms=CORE)
-        for variant in ("multi", "via", "mid", "decl"):
+        for variant in ("multi", "via", "mid", "decl", "nest"):
             items += [{"tp": a, "tc": b, "variant": variant} for a in sub for b in sub]
+        items += [{"tp": a, "tc": tc, "variant": "mm"} for a in atoms for tc in (a, f"Optional[{a}]")]
         res = pool.map("run_pair", items, chunk=64, item_deadline=60)
         outcomes = {}
         programs = evals = valid = 0
@@ -573,7 +610,8 @@ def run(tier, seed):
             + "; EVERY ordered pair (TP,TC) of these types -> class P: f: TP, class C(P): f: TC, schemas.check_plugin(C); accepted pairs x the union of both "
             "field corpora (child accepts => parent must parse the child's bytes); refused pairs re-checked with @override. Variants 'multi' (two more "
             "identically-typed overridden fields around f), 'via' (override through an empty intermediate class), 'mid' (the override sits in an intermediate class, "
-            "the checked class is a leaf below it) and 'decl' (another field sorting before f carries an explicit @override) over "
+            "the checked class is a leaf below it), 'decl' (another field sorting before f carries an explicit @override), 'nest' (the field holds a nested schema and the "
+            "child's nested subclass widens an inner field) and 'mm' (an intermediate @make_mandatory class, child re-declares the field as T / Optional[T]) over "
             + ("all atom pairs" if q else "all pairs of depth<=2 types with core unions")
             + ". Extra policy: parent extra x child extra(inherit|allow|ignore|forbid) x new field via annotation(optional|required) | "
             "add_const_fields | @ld new | @ld override x chain length 1|2 x parent constants none|ld. Part A: 3-level generated chains "
